@@ -308,3 +308,12 @@ func MapClasses(x *DFA, img func(c int) []int) *DFA {
 	n.Start = []int32{int32(x.Start)}
 	return n.Determinize()
 }
+
+// AnyRune accepts every one-rune string.
+func AnyRune(a *Alphabet) *DFA {
+	all := make([]int, a.N())
+	for i := range all {
+		all[i] = i
+	}
+	return ClassSet(a, all)
+}
